@@ -175,11 +175,11 @@ pub fn check_readback(
     prop: &str,
     sim: &SimRef,
     start_pos: u64,
+    size: u64,
     model: &Model,
     full_bytes: bool,
     out: &mut Vec<Violation>,
 ) {
-    let size = sim.borrow().disk.len();
     let mut p = match Player::open(sim, start_pos, size, 10_000) {
         Opened::Ok(p) => p,
         Opened::Err(e) => {
